@@ -334,10 +334,8 @@ def oracle_stream(case, obs, opened):
 def oracle_retransmit(case, obs):
     """C16's second sentence: every requested packet among the most recent 1000 sent comes
     back byte-identically, in request order — also across the wrap."""
-    from pyatv.protocols.raop import stream_client as sc
-
     problems = []
-    backlog_size = sc.PACKET_BACKLOG_SIZE
+    backlog_size = 1000          # the property's number, not the module constant
     dgrams = obs["datagrams"]
     for r in obs["responses"]:
         k = len(dgrams) if r["k"] < 0 else r["k"]
@@ -356,8 +354,8 @@ def oracle_retransmit(case, obs):
         elif got != expected:
             wrap = r["first"] + r["count"] > MOD
             problems.append(("retransmit-wrap" if wrap else "retransmit",
-                             "request (%d,%d) after %d packets: %d of the %d requested packets in the backlog were resent byte-identically in order"
-                             % (r["first"], r["count"], k, sum(1 for a, b in zip(got, expected) if a == b), len(expected)), r))
+                             "request (%d,%d) after %d packets: %d datagrams resent, %d of the %d requested packets that are among the last 1000 sent came back byte-identically in order"
+                             % (r["first"], r["count"], k, len(got), sum(1 for a, b in zip(got, expected) if a == b), len(expected)), r))
     return problems
 
 
@@ -525,44 +523,56 @@ def gen_fifo_scripts(ctx):
     return scripts
 
 
-def run_fifo(ctx):
+def fifo_impl(limit, ops):
     from pyatv.protocols.raop.fifo import PacketFifo
 
-    scripts = gen_fifo_scripts(ctx)
+    f = PacketFifo(limit)
+    out = []
+    for op in ops:
+        k = int(op[1:])
+        try:
+            if op[0] == "s":
+                f[k] = struct.pack(">H", k)
+                out.append("ok")
+            elif op[0] == "g":
+                out.append(f[k].hex())
+            else:
+                out.append("1" if k in f else "0")
+        except Exception:
+            out.append("raise")
+    return out, list(f)
+
+
+def fifo_oracle(limit, ops, out, keys):
+    """The backlog keeps the most recently inserted `limit` items, oldest first (checked on
+    scripts that never insert a key twice, so "most recent" is unambiguous)."""
+    accepted = [int(op[1:]) for op, res in zip(ops, out) if op[0] == "s" and res == "ok"]
+    attempted = [int(op[1:]) for op in ops if op[0] == "s"]
+    if limit > 0 and len(set(attempted)) == len(attempted):
+        if accepted != attempted:
+            return "PacketFifo rejected a new key"
+        if keys != accepted[-limit:]:
+            return "PacketFifo does not hold the most recently inserted items"
+    return None
+
+
+def run_fifo(ctx, only=None):
+    scripts = gen_fifo_scripts(ctx) if only is None else only
     impl = []
     for limit, ops in scripts:
-        f = PacketFifo(limit)
-        out = []
-        for op in ops:
-            k = int(op[1:])
-            try:
-                if op[0] == "s":
-                    f[k] = struct.pack(">H", k)
-                    out.append("ok")
-                elif op[0] == "g":
-                    out.append(f[k].hex())
-                else:
-                    out.append("1" if k in f else "0")
-            except Exception:
-                out.append("raise")
-        out.append("|" + (",".join(map(str, list(f))) or "-"))
-        impl.append(",".join(out))
+        out, keys = fifo_impl(limit, ops)
+        impl.append((out, keys))
     answers = ctx.lean(["fifo %d %s" % (limit, ",".join(ops)) for limit, ops in scripts])
-    for (limit, ops), a, b in zip(scripts, impl, answers):
+    for (limit, ops), (out, keys), b in zip(scripts, impl, answers):
+        a = ",".join(out + ["|" + (",".join(map(str, keys)) or "-")])
         ctx.note("fifo")
-        ctx.case(["fifo", limit, ops], "raise" in a or len([o for o in ops if o[0] == "s"]) > limit)
+        ctx.case(["fifo", limit, ops], "raise" in out or len([o for o in ops if o[0] == "s"]) > limit)
         if a != b:
             ctx.disagree({"fifo": [limit, ops]}, a, b, where="PacketFifo")
         ctx.validated()
-        # direct: insertion order, newest kept, at most `limit` items
-        keys = [int(x) for x in a.split("|")[1].split(",")] if a.split("|")[1] != "-" else []
-        accepted = []
-        for op, res in zip(ops, a.split(",")):
-            if op[0] == "s" and res == "ok":
-                accepted.append(int(op[1:]))
-        if limit > 0 and keys != accepted[-limit:][-len(keys):] and len(set(accepted)) == len(accepted):
-            ctx.fail("fifo:last-n", {"fifo": [limit, ops]}, keys, accepted[-limit:],
-                     "PacketFifo does not hold the most recently inserted items")
+        what = fifo_oracle(limit, ops, out, keys)
+        if what:
+            ctx.fail("fifo:last-n", {"fifo": [limit, ops]}, keys, "the last %d inserted keys" % limit, what)
 
 
 # --------------------------------------------------------------------------- entry points
@@ -632,7 +642,9 @@ def run(ctx, only=None):
 def replay(ctx, failure):
     case = failure["case"]
     if "fifo" in case:
-        return True
+        limit, ops = case["fifo"]
+        out, keys = fifo_impl(limit, ops)
+        return fifo_oracle(limit, ops, out, keys) is not None
     case = dict(case)
     case.pop("nrequests", None)
     case.setdefault("requests", [])
